@@ -941,7 +941,11 @@ def remove(
     conn = connect()
     conn.set_progress_handler(progress.update, 100000)
     try:
-        for rowid, id, _, _, _, _, version, *_ in find_lexicons(lexicon=lexicon):
+        # select everything to be removed before the first deletion;
+        # find_lexicons() is a generator that would otherwise evaluate
+        # later specifiers on a partially modified database
+        lexicons = list(find_lexicons(lexicon=lexicon))
+        for rowid, id, _, _, _, _, version, *_ in lexicons:
             extensions = _find_all_extensions(rowid)
 
             with conn:
